@@ -15,7 +15,7 @@ func TestSpecExamples(t *testing.T) {
 	}
 	var ex []struct {
 		Markdown, HTML, Section string
-		Example          int
+		Example                 int
 	}
 	if err := json.Unmarshal(data, &ex); err != nil {
 		t.Fatal(err)
